@@ -26,7 +26,7 @@ PROP_MODULES = {
     'C05': ['obligations.conc_ops', 'obligations.block_ops', 'obligations.cache_ops', 'obligations.persist_ops', 'obligations.recipes_ops'],
     'C07': ['obligations.cache_ops', 'obligations.queue_ops'],
     'C14': ['obligations.cache_ops', 'obligations.queue_ops', 'obligations.fanout_ops'],
-    'C16': ['obligations.e2_jobs'],
+    'C16': ['obligations.e2_jobs', 'obligations.memo_ops'],
 }
 for _p in ('C04', 'C08'):
     PROP_MODULES[_p] = PROP_MODULES[_p] + ['obligations.queue_ops']
